@@ -38,7 +38,7 @@ import time
 from hypothesis import strategies as st
 
 from vlib import cbuild
-from vlib.runner import Violation, Discard, HarnessError
+from vlib.runner import Violation, Discard, HarnessError, case_hash
 
 ID = 'C17'
 LEVEL = 'exploration'
@@ -532,7 +532,31 @@ def tokv(v):
 _COUNTER = [0]
 
 
+SHRINK_RUNS = 150      # driver processes spent on shrinking one shard's failure (each costs a process)
+
+
 def check_case(case, ctx):
+    # Bounded shrinking: once a shard has a failure, at most SHRINK_RUNS further histories are really
+    # played; later candidates count as "not failing" (Hypothesis then stops shrinking) and a candidate
+    # seen before gets its recorded verdict, so the final replay of the minimal example is stable.
+    memo = ctx.__dict__.setdefault('_c17_shrink', {'failed': False, 'left': SHRINK_RUNS, 'seen': {}})
+    key = None
+    if memo['failed']:
+        key = case_hash(case)
+        if key in memo['seen']:
+            raise Violation(*memo['seen'][key])
+        if memo['left'] <= 0:
+            raise Discard()
+        memo['left'] -= 1
+    try:
+        _check_case(case, ctx)
+    except Violation as v:
+        memo['failed'] = True
+        memo['seen'][key or case_hash(case)] = (v.clause, v.detail)
+        raise
+
+
+def _check_case(case, ctx):
     b = _build()
     scratch = ctx.mkscratch()
     _COUNTER[0] += 1
